@@ -14,6 +14,7 @@ address-free) equals the signature of the same program run alone in the same pro
 Monitor: IsolationMonitor (via EvalTracer) - no frame may be handed a scope whose root
 was created by another thread.
 """
+import os
 import sys
 import time
 import itertools
@@ -837,6 +838,128 @@ def reentrant(col, rng):
             col.violation('C20/reentrant-outer-trace-lacks-outer-root', 'outer error trace does not start at the outer root target: %s' % short(a, 700), None)
 
 
+_HOOK_CHILD = r"""
+import os, sys, threading, traceback
+sys.path.insert(0, os.environ['GLOM_VERIF_SRC'])
+import glom as glom_pkg
+from glom import glom, GlomError, register, T, Coalesce, Glommer
+from abc import ABCMeta
+assert os.path.abspath(glom_pkg.__file__).startswith(os.path.abspath(os.environ['GLOM_VERIF_SRC'])), glom_pkg.__file__
+
+
+class Rec(object):
+    # read-only record view over nested data: attribute access is resolved with glom() (a re-entrant call made by whatever
+    # touches an attribute of the view - including the library's own probing of a value it has not seen before)
+    __slots__ = ('_data',)
+
+    def __init__(self, data):
+        object.__setattr__(self, '_data', data)
+
+    def __getattr__(self, name):
+        try:
+            return glom(self._data, name)
+        except GlomError:
+            raise AttributeError(name)
+
+
+class Rec2(Rec):
+    __slots__ = ()
+
+
+class HasId(metaclass=ABCMeta):
+    # duck type whose subclass hook itself uses glom()
+    @classmethod
+    def __subclasshook__(cls, C):
+        probe = getattr(C, 'PROBE', None)
+        if probe is None:
+            return NotImplemented
+        return glom(probe, Coalesce('meta.id', default=None)) is not None
+
+
+class Unrelated(object):
+    pass
+
+
+class Doc(object):
+    PROBE = {'meta': {'id': 0}}
+    __slots__ = ('meta',)
+
+    def __init__(self, ident):
+        self.meta = {'id': ident}
+
+
+results = {}
+
+
+def scenario():
+    data = {'a': {'b': 1}, 'n': [1, 2, 3]}
+    results['alone'] = glom(data, 'a')
+    register(Unrelated)                       # (any registration empties the handler memo: the next lookups are cold)
+    results['proxy-cold-memo'] = glom(Rec(data), 'a.b')
+    register(Rec)
+    results['proxy-inside-a-callable'] = glom(data, ('n', [lambda x: glom(Rec2({'k': {'v': x}}), 'k.v') * 10]))
+    results['proxy-star'] = glom({'r': Rec(data)}, 'r.*') if False else None
+    register(HasId, iterate=lambda d: iter([d.meta['id']]))
+    results['hook-using-glom'] = glom(Doc(7), [T])
+    g = Glommer()
+    results['proxy-through-a-Glommer'] = g.glom(Rec2(data), 'n.1')
+    g.register(HasId, iterate=lambda d: iter(['g', d.meta['id']]))
+    results['hook-through-a-Glommer'] = g.glom(Doc(8), [T])
+
+
+t = threading.Thread(target=scenario, daemon=True)
+t.start()
+t.join(45)
+if t.is_alive():
+    frame = sys._current_frames().get(t.ident)
+    stack = traceback.format_stack(frame) if frame is not None else []
+    print('HUNG ' + repr({'results': results, 'where': [ln.strip().splitlines()[0] for ln in stack[-6:]]}))
+    sys.stdout.flush()
+    os._exit(3)
+print('RESULTS ' + repr(results))
+"""
+
+
+def reentry_from_lookup_hooks(col):
+    """re-entrant calls that the library itself provokes: while it looks for the handler of a value it has not seen before (cold memo),
+    it probes the value and its class - an attribute hook (__getattr__ of a slots-based record view) or a subclass hook that uses
+    glom() makes a complete inner call at that point.  Each call returns what it returns alone.  Run in a child process: a call that
+    never returns is diagnosed from where its thread is blocked."""
+    import subprocess
+    e = env.child_env({'GLOM_VERIF_SRC': env.SRC})
+    try:
+        p = subprocess.run([sys.executable, '-c', _HOOK_CHILD], env=e, cwd=env.VERIF_DIR, timeout=180, stdout=subprocess.PIPE, stderr=subprocess.STDOUT, text=True)
+    except subprocess.TimeoutExpired:
+        col.fail_inconclusive('the child running re-entrant calls from lookup hooks did not come back')
+        return
+    col.case(('reentry-from-lookup-hooks',), True)
+    col.count('reentrant_calls', 6)
+    col.count('reentrant_calls_from_lookup_hooks', 6)
+    out = p.stdout.strip().splitlines()
+    line = out[-1] if out else ''
+    want = {'alone': {'b': 1}, 'proxy-cold-memo': 1, 'proxy-inside-a-callable': [10, 20, 30], 'proxy-star': None, 'hook-using-glom': [7],
+            'proxy-through-a-Glommer': 2, 'hook-through-a-Glommer': ['g', 8]}
+    if line.startswith('HUNG '):
+        info = eval(line[5:])
+        in_library = any('glom' + os.sep in w or '/glom/' in w for w in info['where'])
+        if in_library:
+            col.violation('C20/reentrant-call-from-a-lookup-hook-never-returns', 'a glom() call made from an attribute / subclass hook while the library looks up a '
+                          'handler never returned (45 s); completed so far %r ; the thread is blocked at %s' % (info['results'], info['where'][-3:]), None)
+        else:
+            col.fail_inconclusive('re-entrant hook scenario did not finish, blocked outside the library: %r' % (info['where'][-3:],))
+    elif line.startswith('RESULTS '):
+        got = eval(line[8:])
+        if got != want:
+            diff = {k: (got.get(k), want[k]) for k in want if got.get(k) != want[k]}
+            col.violation('C20/reentrant-call-from-a-lookup-hook-differs', 're-entrant calls made from lookup hooks: (got, expected) %r' % (diff,), None)
+    else:
+        tail = p.stdout[-600:]
+        if 'glom' in tail and 'Traceback' in tail:
+            col.violation('C20/reentrant-call-from-a-lookup-hook-differs', 'the scenario raised: %s' % tail, None)
+        else:
+            col.fail_inconclusive('re-entrant hook child failed: %s' % tail)
+
+
 def run(ctx):
     col, rng = ctx.col, ctx.rng
     tracer = EvalTracer()
@@ -849,6 +972,7 @@ def run(ctx):
     try:
         if ctx.shard == 0:
             reentrant(col, rng)
+            reentry_from_lookup_hooks(col)
         if ctx.thorough:
             enumerated(col, rng, mon, 2, 4, 252, 6, self_schedules=252)
             enumerated(col, rng, mon, 3, 2, 400, 3, self_schedules=200)
